@@ -183,6 +183,7 @@ class Installed(object):
         self.callables = {}     # id(callable) -> decl   (bare callables in config)
         self.tools = {}         # decl id -> tool object
         self.reqs = []          # Request objects in creation order
+        self.decorated = {}     # decl id -> the tool's entries the decorator left in the handler's _cp_config
         self.root = None
 
     def cleanup(self):
@@ -259,7 +260,14 @@ def install(plan, app, inst):
             inst.undo.append(lambda box=box, name=name: delattr(box, name))
             inst.tools[hid] = tool
             if 'deco' in d:
+                before = dict(getattr(handler, '_cp_config', {}))
                 handler = tool(**d['deco'])(handler)
+                after = getattr(handler, '_cp_config', None)
+                # what the decorator wrote for this tool (Tool.__call__: `on` = True plus every keyword argument)
+                pre = '%s.%s.' % (d['box'], name)
+                inst.decorated[hid] = ({k[len(pre):]: v for k, v in after.items()
+                                        if k.startswith(pre) and (k not in before or before[k] is not v)}
+                                       if isinstance(after, dict) else None)
             for level, key, v in d.get('conf', []):
                 # key '' = a malformed entry `<box>.<tool>` without an argument name: `populate` raises, the
                 # toolbox's __exit__ still sets up what it has, the request fails inside self.namespaces(...)
@@ -676,6 +684,7 @@ def run_real(plan):
         while len(snaps) < len(obs['reqs']):
             snaps.append(_empty_snapshot('request object not seen'))
         obs['snaps'] = snaps
+        obs['decorated'] = inst.decorated
         obs['cls_after'] = read_hookmap(getattr(inst, 'cls_map', None))
     finally:
         inst.cleanup()
@@ -925,7 +934,7 @@ def targeted_plans():
                         ['ir1', 'bytes', None], ['ok', 'gen1', None]):
             for bad in (None, [4, 1, 10, 0, 'ex'], [5, 1, 10, 0, 'ex'], [6, 1, 10, 0, 'ex'], [3, 1, 10, 0, 'he500'],
                         [4, 1, 10, 0, 'ir1']):
-                for stream in (0, 1):
+                for stream in ((0, 1) if (bad is None or handler[1] != 'bytes') else (0,)):
                     out.append(P([B(hooks=end + ([bad] if bad else []), handler=handler, stream=stream),
                                   B(hooks=[[4, 94, 50, 1, 'ok'], [5, 95, 50, 1, 'ok']])],
                                  reqopt={o: 1 for o in opts}, closes=2 if stream else 1))
